@@ -396,6 +396,32 @@ def _worker(part, tier, is_canary):
                     bad.append(f"{vname}.move moved branches {moved} want {wantb}")
                 out["evals"] += 7
                 out["cases"] += 7
+            # views HELD across other calls (created before the group existed / before other views wrote): a mutating call through a
+            # stored view still changes exactly the view's rows and keeps what others added (seeded change C11_c)
+            n0 = template()
+            held = [n0.cell(1), n0.cell(0).branch(2), n0.cell(2)]
+            n0.cell(0).branch(0).add_to_group("late")
+            for h in held:
+                h.add_to_group("late")
+            want_late = sorted([0, 1] + [6, 7, 8] + [3, 4, 5] + [9, 10])
+            got_late = sorted(int(x) for x in n0.groups["late"])
+            if got_late != want_late:
+                bad.append(f"add_to_group through views held since before the group existed: group rows {got_late}, union of the views {want_late}")
+            n0 = template()
+            cells_held = list(n0.cells)
+            for c in cells_held:
+                c.add_to_group("allc")
+            if sorted(int(x) for x in n0.groups["allc"]) != list(range(NCOMP)):
+                bad.append(f"add_to_group through list(net.cells): group rows {sorted(int(x) for x in n0.groups['allc'])}, want all compartments")
+            n0 = template()
+            hv = n0.cell(1)
+            n0.cell(0).set("radius", 4.4)
+            hv.set("radius", 5.5)
+            rr = n0.nodes["radius"].tolist()
+            if not (all(r == 4.4 for r in rr[0:6]) and all(r == 5.5 for r in rr[6:9])):
+                bad.append(f"set through a held view after another view wrote: radius column {rr}")
+            out["evals"] += 3
+            out["cases"] += 3
             out["results"].append(_res("views[mutation]:set / insert / record / stimulate / clamp / add_to_group / move through a view change those rows and no others", not bad, " | ".join(bad[:3]), backend="bounded-evaluation"))
         elif part == "loc_kernel":
             # for ALL at in [0,1]: digitised index in [0, ncomp-1]  (np.digitize contract: number of edges <= at)
